@@ -807,7 +807,6 @@ package adaptation
 //@   ensures [reply.new] result == nil ==> (forall j int :: 0 <= j && j < len(env) && !markedK(env[j].Key) ==> inE(envD(r), env[j]))
 //@   ensures [reply.gone] result == nil ==> (forall i int :: 0 <= i && i < len(envD(r)) ==> allocated(envD(r)[i]) && ((forall j int :: 0 <= j && j < len(env) ==> envD(r)[i] != env[j]) ==> !rmE(env, envD(r)[i].Key)))
 //@   ensures [cons]     old(envCons(r)) ==> envCons(r)
-//@   ensures [fwd] @thorough result == nil ==> (forall p string :: rmE(env, p) && !setE(env, p) ==> (exists i int :: 0 <= i && i < len(envD(r)) && envD(r)[i].Key == "-" + p))
 // loop 1: split the response into removals (del), sets (mod) and the list of sets in order (add)
 //@   loop 1 modifies elems(add), map(del), map(mod)
 //@   loop 1 invariant 0 <= idx + 1 && idx + 1 <= len(env) && del != nil && mod != nil && del != mod
